@@ -55,7 +55,7 @@ NOT_APPLICABLE = {}
 # checks registered by their own module: lib/checks/cNN.py may define
 #   MANIFEST = dict(cat=<level category>, ref=<DESIGN.md section>, tech=<technique>, text=<level text>, note=<level note>)
 # modules accepted by the coordinator (a module under development is not registered until it is listed here)
-ACCEPTED = ["C01", "C02", "C07", "C08", "C11", "C13", "C14", "C17", "C18", "C19", "C20", "C24", "C25", "C26", "C27", "C31", "C32", "C33", "C38", "C40", "C41", "C42"]
+ACCEPTED = ["C01", "C02", "C07", "C08", "C11", "C12", "C13", "C14", "C15", "C16", "C17", "C18", "C19", "C20", "C21", "C22", "C23", "C24", "C25", "C26", "C27", "C28", "C29", "C30", "C31", "C32", "C33", "C35", "C38", "C40", "C41", "C42", "C43"]
 
 
 def _module_checks():
